@@ -15,12 +15,10 @@ SELECT = {
     "C01": lambda n: _TILING.search(n) is not None,
 }
 PARTS = {"C02": ("write_column", "make_row_group"), "C04": ("write_column",), "C01": ("write_column", "make_row_group", "iter_dataframe")}
-# known findings: (id, names it covers).  The companion obligation "...[compression is not a dict lacking 'type']" states the
-# same claim outside the region and must be proved; encoding_stats_page_type is proved for v1.
-KNOWN = {"C02": [("C02-P-codec-dict-compression-without-type",
-                  re.compile(r"^write_column\[v[12]\]\.(page\.payload_codec_is_colmeta_codec|"
-                             r"data_page_v2\.values_codec_is_colmeta_codec_iff_is_compressed)$")),
-                 ("C02-P-encoding-stats-page-type-v2", re.compile(r"^write_column\[v2\]\.colmeta\.encoding_stats_page_type$"))]}
+# known findings: (id, regex over the obligation names it covers).  None is open: the three findings of this contract
+# (fixed-C02-codec-dict-without-type, fixed-C02-codec-empty-dict, fixed-C02-encoding-stats-page-type-v2) are repaired in /repo and
+# `fixed` records suppress nothing - a refutation of those obligations is a VIOLATION again.
+KNOWN = {}
 
 
 def function_of(name):
